@@ -161,6 +161,10 @@ func vfC10LibBases() []vfBase {
 						// and shape, other content), in a group that sorts before and one that sorts after
 						vfOp{Op: "mkds", Path: "/g/x", Type: "f64", Dims: []uint64{4}}, vfOp{Op: "write", Path: "/g/x", Pat: 3},
 						vfOp{Op: "mkgroup", Path: "/zz"}, vfOp{Op: "mkds", Path: "/zz/x", Type: "f64", Dims: []uint64{4}}, vfOp{Op: "write", Path: "/zz/x", Pat: 4},
+						// a chunked, resizable dataset: through an OpenDataset handle its layout address
+						// is the chunk index, not raw data
+						vfOp{Op: "mkds", Path: "/ck", Type: "f64", Dims: []uint64{4}, Chunk: []uint64{2}, Max: []uint64{6}}, vfOp{Op: "write", Path: "/ck", Pat: 2},
+						vfOp{Op: "attr", Path: "/ck", Name: "ca", Value: "i32a"},
 						vfOp{Op: "mkds", Path: "/y", Type: "i32", Dims: []uint64{2, 3}}, vfOp{Op: "write", Path: "/y", Pat: 2},
 						vfOp{Op: "attr", Path: "/y", Name: "unit", Value: "s40"})
 					for _, o := range ops {
@@ -171,7 +175,7 @@ func vfC10LibBases() []vfBase {
 					}
 					return fw.Close()
 				},
-				ds: []string{"/x", "/y"}, types: map[string]string{"/x": "f64", "/y": "i32"}, nelems: map[string]int{"/x": 4, "/y": 6},
+				ds: []string{"/x", "/y", "/ck"}, types: map[string]string{"/x": "f64", "/y": "i32", "/ck": "f64"}, nelems: map[string]int{"/x": 4, "/y": 6, "/ck": 4},
 			})
 		}
 	}
@@ -268,6 +272,10 @@ func TestVerif_C10(t *testing.T) {
 			vfSOp{Op: "write", Path: tgt, Pat: 5}, vfSOp{Op: "mkds", Path: "/newds"}, vfSOp{Op: "mkgroup", Path: "/newgrp"})
 		if len(base.ds) > 1 {
 			ops = append(ops, vfSOp{Op: "attr", Path: base.ds[1], Name: "b", Value: "i32b"})
+		}
+		if len(base.ds) > 2 && strings.HasPrefix(base.name, "lib/") {
+			// data overwrite and an attribute on the chunked dataset
+			ops = append(ops, vfSOp{Op: "write", Path: base.ds[2], Pat: 5}, vfSOp{Op: "attr", Path: base.ds[2], Name: "cb", Value: "s40"})
 		}
 		var sessions []vfSession
 		sessions = append(sessions, vfSession{})
